@@ -29,6 +29,7 @@ def run(ctx: Ctx):
     ctx.attempt(node_cells, ctx)
     ctx.attempt(weights, ctx)
     ctx.attempt(units_and_distance, ctx)
+    ctx.attempt(link_speed_agrees, ctx)
     ctx.floor("BD", 2)
     ctx.not_decided += ["that great-circle distance between (cell-rounded) junctions never exceeds road length (geometric)"]
     ctx.assumptions += ["networkx.astar_path returns a minimum-weight path for an admissible heuristic"]
@@ -121,6 +122,49 @@ def search_call(ctx: Ctx):
                   why_bad=f"path [{p.cond_text()[:160]}] returns {flow.dump(v)[:260]}: the inner part does not come from the fastest-path search", construct="OSMRoadNetwork.route:bypasses-search")
     if n < 1:
         ctx.soft_fail("OSMRoadNetwork.route: no assembling path")
+
+
+def link_speed_agrees(ctx: Ctx):
+    """The speed bound of the heuristic is the maximum over the LINK TABLE, the travel-time weights are computed from the
+    EDGE data: the bound is an upper bound of the weights' speeds only if a link stores its edge's posted speed whenever one
+    is posted (and the default only when none is). Any other condition on the posted value (a plausibility window, a cap)
+    makes the table's maximum smaller than a speed the weights use."""
+    LH = "nrel/hive/model/roadnetwork/osm/osm_road_network_link_helper.py"
+    ce = ctx.repo.func(LH, "OSMRoadNetworkLinkHelper.build.create_link_entry")
+    n = 0
+    for p in flow.paths(ce.node):
+        if p.kind != "return" or p.has_marker("except") or flow.classify_result(p.value) != "ok":
+            continue
+        for e in p.events:
+            if e.name == "build" and not e.deferred and flow.dump(e.call.func) == "Link.build" and len(e.call.args) >= 4:
+                n += 1
+                facts = p.facts()
+                sp = flow.specialise(e.call.args[3], facts)
+                d = flow.dump(sp)
+                data = None
+                for c in ast.walk(e.call.args[3]):
+                    if isinstance(c, ast.Call) and flow.dump(c.func).endswith("get_edge_data"):
+                        data = flow.dump(c)
+                posted = f"{data}.get('speed_kmph')" if data else None
+                ok = False
+                why = d[:160]
+                if data and d in (f"{data}.get('speed_kmph', default_speed_kmph)", f"{data}.get('speed_kmph', default_speed_kmph) if {data} else default_speed_kmph"):
+                    ok = True
+                elif data and d == posted:
+                    ok = any((flow.is_syn(a, "$isnone") and pol is False and flow.dump(a.args[0]) == posted) for a, pol in facts)
+                elif d == "default_speed_kmph":
+                    # allowed only when nothing is posted: data falsy, or the posted value is None
+                    none_posted = any((flow.is_syn(a, "$isnone") and pol is True and flow.dump(a.args[0]) in (posted, data)) or (flow.dump(a) == data and pol is False) for a, pol in facts)
+                    value_tested = any(isinstance(a, ast.Compare) and posted and posted in flow.dump(a) and not flow.dump(a).endswith("is None") and not flow.dump(a).endswith("is not None") for a, _ in facts)
+                    ok = none_posted and not value_tested or (data is None)
+                    if value_tested:
+                        why = "the default replaces a posted speed depending on its VALUE"
+                ctx.check(ok, "D2", "BD.speed-bound", "a link stores its edge's posted speed whenever one is posted (the default only when none is)", ce, e.raw,
+                          why_bad=f"on path [{p.cond_text()[-200:]}] the link's speed is {why}: the edge's travel-time weight still uses the posted speed, so the table's maximum speed is no "
+                                  f"longer an upper bound and the A* estimate can exceed the true remaining time",
+                          construct="create_link_entry:link-speed")
+    if n < 1:
+        ctx.soft_fail("create_link_entry: Link.build with a speed not found")
 
 
 def heuristic(ctx: Ctx):
